@@ -39,10 +39,6 @@ def load_module(prop):
     return importlib.import_module(f"harness.{prop.lower()}")
 
 
-def finding_matches(f, failure):
-    return f["signature"] == failure["signature"]
-
-
 def main(argv=None):
     ap = argparse.ArgumentParser()
     ap.add_argument("prop")
@@ -182,9 +178,7 @@ def run_check(ctx, mod, ev):
     cov["oracle"] = getattr(ctx, "oracle_stats", {})
     known, unknown = [], []
     for f in failures:
-        hit = [k for k in findings if C.finding_matches(k, f)] if hasattr(C, "finding_matches") else [
-            k for k in findings if k["signature"] == f["signature"]
-        ]
+        hit = [k for k in findings if k["signature"] == f["signature"]]
         (known if hit else unknown).append(f)
     reproduced = sorted({f["signature"] for f in known})
     cov["known_findings_reproduced"] = reproduced
